@@ -132,9 +132,11 @@ type Resource struct {
 
 // NewResource creates a new Resource
 func NewResource() *Resource {
-	return &Resource{
+	r := &Resource{
 		node: node{},
 	}
+	verifEv("node.new", &r.node, r)
+	return r
 }
 
 // Invalidate permanently invalidates r
@@ -244,6 +246,7 @@ func run(ctx context.Context, f ComputeFunc) (*computation, error) {
 		// caller
 		node: node{},
 	}
+	verifEv("comp.new", &c.node, nil)
 
 	childCtx := context.WithValue(ctx, computationKey{}, c)
 
@@ -337,6 +340,7 @@ func NewRerunner(ctx context.Context, f ComputeFunc, minRerunInterval time.Durat
 
 		flushCh: make(chan struct{}, 0),
 	}
+	verifEv("rr.new", r, nil)
 	go r.run()
 	return r
 }
@@ -365,6 +369,7 @@ func (r *Rerunner) run() {
 	}
 	t.Stop()
 	if r.ctx.Err() != nil {
+		verifEv("rr.skip", r, nil)
 		return
 	}
 
@@ -380,8 +385,10 @@ func (r *Rerunner) run() {
 
 	// Bail out if the computation has been stopped.
 	if r.stop {
+		verifEv("rr.skip", r, nil)
 		return
 	}
+	verifEv("rr.enter", r, nil)
 
 	if !r.lastRun.IsZero() {
 		// Delay the rerun in order to emulate write-then-read consistency.
@@ -403,6 +410,7 @@ func (r *Rerunner) run() {
 		if err != RetrySentinelError {
 			// If we encountered an error that is not the retry sentinel,
 			// we should stop the rerunner.
+			verifEv("rr.exitfail", r, nil)
 			return
 		}
 		// Reset the cache for sentinel errors so we get a clean slate.
@@ -414,6 +422,7 @@ func (r *Rerunner) run() {
 		if r.retryDelay > time.Minute {
 			r.retryDelay = time.Minute
 		}
+		verifEv("rr.exitretry", r, nil)
 		go r.run()
 	} else {
 		// If we succeeded in the computation, we can release the old computation
@@ -441,9 +450,11 @@ func (r *Rerunner) run() {
 func (r *Rerunner) Stop() {
 	// Call cancelCtx before acquiring the lock as the lock might be held for a long time during a running computation.
 	r.cancelCtx()
+	verifEv("rr.cancel", r, nil)
 
 	r.mu.Lock()
 	r.stop = true
+	verifEv("rr.stop", r, nil)
 	if r.computation != nil {
 		go r.computation.node.release()
 		r.computation = nil
